@@ -34,7 +34,7 @@ SPEC = {
 }
 
 MANIFEST = {
-    "text": "Every way a session ends is a transition of a resource-accounting Model (DHCP: RELEASE, DECLINE, lease expiry, after renewals that drop or change the Circuit-ID and under full kernel maps (a Put failing between the two writes of a QoS policy, of a NAT block, of each cache entry); PPPoE: PADT, LCP Terminate-Request, authentication failure, idle cleanup, SessionTeardown (admin/RADIUS disconnect, TerminateAll = shutdown), also two of these at once with the first held inside cleanup at the eBPF callback or at the Accounting-Response; subscriber.Manager: TerminateSession on a live / cancelled / expired caller context and with a failing allocator release, timeouts, concurrent terminations, Stop) that removes exactly what the code removes on that path. Theorems state, for each path, that the summary function 'held' of the ended session (fixed before the end) is empty afterwards — address back in the pool, NAT block, QoS policy, cache entries by MAC/circuit-id/VLAN gone, one Stop per Start — and that a second ending operation returns the state unchanged with no accounting record; the clauses the code does not satisfy are refuted by vm_compute witnesses that the check replays on the real code as known findings (DECLINE of another address, offered-only sessions, PPPoE idle cleanup, shutdown, teardown after the server already ended the session). The Model is evaluated inside Coq on full before/after resource snapshots recorded from the real dhcp.Server with real NAT/QoS managers and loader on kernel eBPF maps and a recording RADIUS server, the real pppoe.Server + SessionTeardown, and the real subscriber.Manager, on every run. Six defects were repaired in the repository (81d6b2b, b42d48d, f58f3aa, fe50cc3, ac242d7, c878197).",
+    "text": "Every way a session ends is a transition of a resource-accounting Model (DHCP: RELEASE, DECLINE, lease expiry, after renewals that drop or change the Circuit-ID and under full kernel maps (a Put failing between the two writes of a QoS policy, of a NAT block, of each cache entry), with kernel maps emptied behind the managers' back mid-session, and with the owner returning in the window between lease expiry and the reaper's pass; PPPoE: PADT, LCP Terminate-Request, authentication failure, idle cleanup, SessionTeardown (admin/RADIUS disconnect, TerminateAll = shutdown), also two of these at once with the first held inside cleanup at the eBPF callback or at the Accounting-Response; subscriber.Manager: TerminateSession on a live / cancelled / expired caller context and with a failing allocator release, timeouts, concurrent terminations, Stop) that removes exactly what the code removes on that path. Theorems state, for each path, that the summary function 'held' of the ended session (fixed before the end) is empty afterwards — address back in the pool, NAT block, QoS policy, cache entries by MAC/circuit-id/VLAN gone, one Stop per Start — and that a second ending operation returns the state unchanged with no accounting record; the clauses the code does not satisfy are refuted by vm_compute witnesses that the check replays on the real code as known findings (DECLINE of another address, offered-only sessions, PPPoE idle cleanup, shutdown, teardown after the server already ended the session). The Model is evaluated inside Coq on full before/after resource snapshots recorded from the real dhcp.Server with real NAT/QoS managers and loader on kernel eBPF maps and a recording RADIUS server, the real pppoe.Server + SessionTeardown, and the real subscriber.Manager, on every run. Six defects were repaired in the repository (81d6b2b, b42d48d, f58f3aa, fe50cc3, ac242d7, c878197).",
     "note": "Theorems are about the hand-written resource-level Model (it abstracts resource contents); the tie is the differential run (sampled + enumerated paths x prefixes x pairs). Guards are decidable state predicates (bookkeeping intact), exhibited on reachable states and kept by the guarded streams, not derived from a history invariant. Concurrent termination is validated by forced interleaving, not proved. DHCP/PPPoE server shutdown is by reading.",
     "technique": "Rocq proof (association-list / filter reasoning over a composition model, fold invariants, vm_compute refutation witnesses) + differential correspondence on real objects with kernel eBPF maps and a recording RADIUS server + trace monitor",
     "design_ref": "DESIGN.md §8 C16, docs/C16.md",
